@@ -181,17 +181,33 @@ impl Snapshot {
 	/// Same as `collect_iter_state`, without needing a `Snapshot` value (whose
 	/// `Drop` unregisters its sequence number from the snapshot tracker).
 	pub(crate) fn collect_iter_state_from(core: &Arc<Core>) -> Result<IterState> {
-		let active = guardian::ArcRwLockReadGuardian::take(Arc::clone(&core.active_memtable))?;
-		let immutable =
-			guardian::ArcRwLockReadGuardian::take(Arc::clone(&core.immutable_memtables))?;
+		// One lock at a time, in the direction the data moves (active memtable ->
+		// immutable memtables -> levels): a memtable that is rotated or flushed in
+		// between is then seen twice, never missed (the same way `get` reads).
+		// Holding the locks together took `immutable_memtables` before
+		// `level_manifest`, while flush and compaction take them in the opposite
+		// order: a cursor created while a flush installed its table could block
+		// both for good.
+		let active = {
+			let guard = guardian::ArcRwLockReadGuardian::take(Arc::clone(&core.active_memtable))?;
+			guard.clone()
+		};
+		let immutable = {
+			let guard =
+				guardian::ArcRwLockReadGuardian::take(Arc::clone(&core.immutable_memtables))?;
+			guard.iter().map(|entry| Arc::clone(&entry.memtable)).collect()
+		};
 		#[cfg(feature = "verif")]
 		crate::verif::point("iter.state.after_immutables");
-		let manifest = guardian::ArcRwLockReadGuardian::take(Arc::clone(&core.level_manifest))?;
+		let levels = {
+			let guard = guardian::ArcRwLockReadGuardian::take(Arc::clone(&core.level_manifest))?;
+			guard.levels.clone()
+		};
 
 		Ok(IterState {
-			active: active.clone(),
-			immutable: immutable.iter().map(|entry| Arc::clone(&entry.memtable)).collect(),
-			levels: manifest.levels.clone(),
+			active,
+			immutable,
+			levels,
 			versioned_index: core.versioned_index.clone(),
 		})
 	}
